@@ -725,10 +725,14 @@ def _t2_rename(rel, tree, ref_funcs, notes):
             continue
         old = [tuple(b) for b in ref_funcs[q]]
         new = bindings(f)
-        old_names = {b[0] for b in old}
-        new_names = {b[0] for b in new}
-        vanished = [b for b in old if b[0] not in new_names]
-        appeared = [b for b in new if b[0] not in old_names]
+        # function-level names and comprehension variables are separate
+        # name spaces (`required = {.. for .., required in ..}`)
+        def ns(b):
+            return (b[0], b[1] == 'comp')
+        old_names = {ns(b) for b in old}
+        new_names = {ns(b) for b in new}
+        vanished = [b for b in old if ns(b) not in new_names]
+        appeared = [b for b in new if ns(b) not in old_names]
         if not vanished or not appeared:
             continue
         renames = {}
@@ -1064,7 +1068,8 @@ def _propagate_one(rel, q, f, name, notes, tree=None):
                                         ast.UnaryOp, ast.Compare, ast.And,
                                         ast.Or, ast.Not, ast.Load, ast.cmpop,
                                         ast.BinOp, ast.operator,
-                                        ast.unaryop))
+                                        ast.unaryop, ast.Set, ast.Tuple,
+                                        ast.List))
                          for n in ast.walk(rhs))
         if not pure:
             # a call with effects may move only to an immediately following
@@ -1387,6 +1392,31 @@ def _t0_canon_stmts(tree) -> int:
                         i += 1
                         n += 1
                         continue
+                # ---- f(a if c else b)  (a statement; f a plain name / attribute
+                #      chain; the only argument)  ->  if c: f(a)  else: f(b)
+                if isinstance(s, ast.Expr) and isinstance(
+                        s.value, ast.Call) and len(s.value.args) == 1 and \
+                        not s.value.keywords and isinstance(
+                            s.value.args[0], ast.IfExp) and _simple_target(
+                            s.value.func):
+                    v = s.value.args[0]
+
+                    def call_with(val, s=s):
+                        e = ast.Expr(value=ast.Call(
+                            func=copy.deepcopy(s.value.func), args=[val],
+                            keywords=[]))
+                        ast.copy_location(e, val)
+                        ast.copy_location(e.value, val)
+                        for t in ast.walk(e.value.func):
+                            ast.copy_location(t, val)
+                        return e
+                    new = ast.If(test=v.test, body=[call_with(v.body)],
+                                 orelse=[call_with(v.orelse)])
+                    ast.copy_location(new, s)
+                    out.append(new)
+                    i += 1
+                    n += 1
+                    continue
                 # ---- x = a if c else b  /  return a if c else b
                 if isinstance(s, (ast.Assign, ast.Return)) and isinstance(
                         getattr(s, 'value', None), ast.IfExp) and (
